@@ -145,7 +145,7 @@ def check_process_input(eng, ctx):
 
 
 def compare_cells(eng, ctx, feedable, rule='FSM.cell', inputs=None,
-                  states_filter=None, prop_note=''):
+                  states_filter=None, prop_note='', differs=None):
     """Cell-wise differential check on the API-reachable abstract states."""
     fsm = eng.fsm
     order, trans = fsm.reachable(feedable)
@@ -166,7 +166,8 @@ def compare_cells(eng, ctx, feedable, rule='FSM.cell', inputs=None,
         for s, r in items:
             exp = ref.step_ref(s, inp)
             got = (r[0], tuple(r[1]), r[2])
-            if got != (exp[0], tuple(exp[1]), exp[2]):
+            if got != (exp[0], tuple(exp[1]), exp[2]) and (
+                    differs is None or differs(exp, got)):
                 what = _diff(exp, got)
                 groups.setdefault(what, []).append(s)
         cell = fsm.stream.cells.get((st, inp))
@@ -461,6 +462,9 @@ def run(ctx, eng):
     ctx.exhaustive = True
     check_layer2(eng, ctx)
     check_receive_frame(eng, ctx)
+    from . import c20
+    c20.check_push_leniency(ctx, eng)
+    c20.check_lookup_contracts(ctx, eng)
     ctx.assume('hyperframe delivers the frame types the model assumes')
     ctx.assume('the abstraction keeps the machine\'s flags and forgets header '
                'contents, payloads and counters')
